@@ -21,15 +21,31 @@ Relations ==
        <<"kpc^2", "pc^2", 1, 6>>, <<"erg s^-1", "J s^-1", 1, -7>>, <<"Msol yr^-1", "Msol Myr^-1", 1, 6>>,
        <<"cm^3 s^-1", "m^3 s^-1", 1, -6>>, <<"Myr^-1", "Gyr^-1", 1, 3>> >>
 
+\* "compound units equal the product of their parts": <<compound, <<part, exponent>>, ...>> - the SI value of one
+\* compound unit is the product of the SI values of its parts raised to their exponents
+Products ==
+    << <<"kpc Gyr^-1", <<"kpc", 1>>, <<"Gyr", -1>> >>, <<"g cm^-3", <<"g", 1>>, <<"cm", -3>> >>,
+       <<"Msol yr^-1", <<"Msol", 1>>, <<"yr", -1>> >>, <<"erg cm^-3 s^-1", <<"erg", 1>>, <<"cm", -3>>, <<"s", -1>> >>,
+       <<"km s^-1", <<"km", 1>>, <<"s", -1>> >>, <<"cm^3 s^-1", <<"cm", 3>>, <<"s", -1>> >>,
+       <<"Msol pc^-2", <<"Msol", 1>>, <<"pc", -2>> >>, <<"kg m^-1 s^-2", <<"kg", 1>>, <<"m", -1>>, <<"s", -2>> >>,
+       <<"angstrom^2", <<"angstrom", 2>> >>, <<"Myr^-1", <<"Myr", -1>> >> >>
+\* "converting a value to SI and back returns it": <<unit, mantissa, exponent>> - the value mantissa x 10^exponent
+RoundTrips ==
+    << <<"kpc", 25, -1>>, <<"pc", 1, 0>>, <<"Gyr", 137, -1>>, <<"Myr", 3, 0>>, <<"yr", 1, 6>>, <<"Msol", 2, 5>>, <<"g cm^-3", 1, -24>>,
+       <<"km s^-1", 3, 2>>, <<"cm^-3", 1, 2>>, <<"erg", 1, 51>>, <<"eV", 136, -1>>, <<"angstrom", 912, 0>>, <<"K", 8, 3>>,
+       <<"cm^3 s^-1", 4, -13>>, <<"Msol yr^-1", 1, -6>>, <<"au", 1, 0>>, <<"h", 24, 0>>, <<"bar", 1, 0>>, <<"degrees", 45, 0>> >>
+
 \* relative deviation (in units of 10^-12) that floating point conversion factors may show
 Bound == 20
 
 Results == IF "RESULTS" \in DOMAIN IOEnv THEN ndJsonDeserialize(IOEnv.RESULTS) ELSE <<>>
 Bad == {i \in 1 .. Len(Results) : Results[i].dev > Bound}
 ASSUME PrintT(<<"RELATIONS", ToJson(Relations)>>)
+ASSUME PrintT(<<"PRODUCTS", ToJson(Products)>>)
+ASSUME PrintT(<<"ROUNDTRIPS", ToJson(RoundTrips)>>)
 ASSUME PrintT(<<"BADUNITS", ToJson([i \in 1 .. Len(Results) |-> IF i \in Bad THEN 1 ELSE 0])>>)
 \* every relation of the table was answered
-ASSUME Results = <<>> \/ Len(Results) = Len(Relations)
+ASSUME Results = <<>> \/ Len(Results) = Len(Relations) + Len(Products) + Len(RoundTrips)
 VARIABLE x
 Init == x = 0
 Next == UNCHANGED x
